@@ -51,6 +51,7 @@ class Transport:
         self.empty_polls = 0
         self.puts = 0
         self.max_messages = 50000
+        self.refs = []  # (worker, position, the statistics object as it was handed to put())
 
     # worker side
     def put(self, item):
@@ -60,6 +61,14 @@ class Transport:
             # a worker that never stops sending (non-terminating optimisation) must not exhaust the memory
             raise BudgetExceeded("the workers sent more than %d messages" % self.max_messages)
         self.streams[idx].append([idx, None if solution is None else np.array(solution, copy=True), np.array(statistics, copy=True)])
+        self.refs.append((idx, len(self.streams[idx]) - 1, statistics, np.array(statistics, copy=True)))
+
+    def live_messages(self):
+        """
+        Messages whose statistics object was modified by the worker after the put(): the real Queue pickles a message in a feeder
+        thread at some later time, so such a message does not carry the statistics of the moment it was sent.
+        """
+        return [(w, i) for w, i, ref, snap in self.refs if not np.array_equal(np.asarray(ref), snap)]
 
     def finalize(self):
         # statistics snapshot "at or after the put"
